@@ -1311,7 +1311,7 @@ func (pc ParseContext) compilePackage(ctx context.Context, b ast.Branch, c ast.C
 			}
 		}
 
-		name := scanner.String()
+		name := strings.Trim(scanner.String(), " \t\n")
 		if strings.HasPrefix(name, "/") {
 			fromRoot := pkg["dot"] == nil
 			if !fromRoot {
@@ -1322,6 +1322,9 @@ func (pc ParseContext) compilePackage(ctx context.Context, b ast.Branch, c ast.C
 				return nil, fmt.Errorf("import path can not be pointing outside of the script's module directory: %s", name)
 			}
 			filePath := strings.Trim(name, "/")
+			if filePath == "" || filePath == "." {
+				return nil, fmt.Errorf("local import %q does not name a file", scanner.String())
+			}
 			if pc.SourceDir == "" {
 				return nil, fmt.Errorf("local import %q invalid; no local context", name)
 			}
